@@ -6,9 +6,9 @@ open Ibex Ibex.Proto
 
 /-- verdict for an enclosure check: impl ⊇ model, impl empty only if model empty -/
 def enclVerdict (model impl : Itv) : String :=
-  if !impl.WF then "FAIL impl-not-wf model=" ++ showItv model
-  else if Itv.subset model impl then
+  if Itv.enclOk model impl then
     (if model == impl then "ok tight" else if model.isEmpty then "ok wider-than-empty" else "ok wider")
+  else if !impl.WF then "FAIL impl-not-wf model=" ++ showItv model
   else "FAIL not-enclosing model=" ++ showItv model
 
 def eqVerdict (model impl : String) : String :=
@@ -57,6 +57,26 @@ def opsItv (op : String) (ins outs : List String) : Option String :=
     | [x, n], [z] => do
       let x ← parseItv x; let n ← n.toInt?; let z ← parseItv z
       pure (enclVerdict (Itv.powInt x n) z)
+    | _, _ => none
+  -- C01: elementary functions against a point oracle (last input token = oracle hull)
+  | "encl" =>
+    match ins.getLast?, outs with
+    | some o, [z] =>
+      match parseItv o, parseItv z with
+      | some o, some z =>
+        some (if Itv.enclOk o z then (if o.isEmpty then "ok no-sample-in-domain" else if z == o then "ok tight" else "ok wider")
+              else if !z.WF then "FAIL impl-not-wf"
+              else "FAIL sample-image-outside-result")
+      | some _, none => some "FAIL impl-bound-not-a-number"
+      | _, _ => none
+    | _, _ => none
+  | "touch" =>
+    match ins.getLast?, outs with
+    | some o, [z] =>
+      match parseItv o, parseItv z with
+      | some o, some z => some (if Itv.intersects o z then "ok touch" else "FAIL sample-image-outside-result")
+      | some _, none => some "FAIL impl-bound-not-a-number"
+      | _, _ => none
     | _, _ => none
   -- C16: set algebra, exact
   | "inter" => binEq (fun x y => showItv (Itv.inter x y)) ins outs
